@@ -44,7 +44,10 @@ VARIANTS = {
     "asan": ("gcc", SHIPPED + ["-O1", "-DNDEBUG", "-g", UBSAN, "-fno-sanitize-recover=all", "-fno-omit-frame-pointer"],
              ["-O1", "-g", UBSAN, "-fno-sanitize-recover=all", "-fno-omit-frame-pointer"],
              [UBSAN]),
+    # race detection for C06: only /repo/src/memory.c and worlds/memc_payload.c are instrumented (see TSAN_ONLY)
+    "tsan": ("clang", SHIPPED + ["-O1", "-DNDEBUG", "-g", "-fno-omit-frame-pointer"], ["-O1", "-g", "-DSIM_TSAN"], ["-fsanitize=thread"]),
 }
+TSAN_ONLY = {"memory", "worlds/memc_payload.c"}
 WRAPS = "-Wl,--wrap=malloc,--wrap=realloc,--wrap=free,--wrap=abort,--wrap=rand,--wrap=__assert_fail"
 HASH_RENAME = ["-Dcstl_hash_size=simclient_hash_size", "-Dcstl_hash_load=simclient_hash_load"]
 
@@ -70,6 +73,8 @@ def run_cmd(cmd):
 
 def build(variants=None, quiet=False):
     """Build (or reuse) simrun for each variant from /repo's current working tree."""
+    global WORLD_SRCS
+    WORLD_SRCS = sorted(glob.glob(os.path.join(SIM, "worlds", "*.c")))
     variants = variants or list(VARIANTS)
     key = tree_key()
     root = os.path.join(BUILD_ROOT, key)
@@ -85,11 +90,15 @@ def build(variants=None, quiet=False):
         inc = ["-I", os.path.join(REPO, "include")]
         for s in LIB_SRCS:
             extra = ["-isystem", os.path.join(SIM, "shim")] if s == "memory" else []
+            if v == "tsan" and s in TSAN_ONLY:
+                extra = extra + ["-fsanitize=thread"]
             jobs.append([cc] + libf + extra + inc + ["-c", os.path.join(REPO, "src", s + ".c"),
                                                       "-o", os.path.join(out, "lib_" + s + ".o")])
         for s in CORE_SRCS + [os.path.relpath(w, SIM) for w in WORLD_SRCS]:
             o = os.path.join(out, "h_" + s.replace("/", "_").replace(".c", ".o"))
-            jobs.append([cc, "-std=gnu11", "-Wall", "-Wextra", "-Wno-unused-parameter", "-Wno-misleading-indentation", "-Wno-clobbered", "-Wno-int-in-bool-context"]
+            tsx = ["-fsanitize=thread"] if (v == "tsan" and s in TSAN_ONLY) else []
+            wflags = ["-Wall", "-Wextra", "-Wno-unused-parameter", "-Wno-misleading-indentation"] + (["-Wno-clobbered", "-Wno-int-in-bool-context"] if cc == "gcc" else ["-Wno-unknown-warning-option"])
+            jobs.append([cc, "-std=gnu11"] + wflags + tsx
                         + harf + HASH_RENAME + inc + ["-I", os.path.join(SIM, "core"),
                                                        "-c", os.path.join(SIM, s), "-o", o])
     if jobs:
